@@ -37,6 +37,7 @@ type World struct {
 	extID      int
 	regexMu    sync.Mutex
 	regexCache map[string]*compiledRx
+	jsonAS     *ssa.Function
 }
 
 const RepoModule = "github.com/google/safehtml"
@@ -115,6 +116,21 @@ func (w *World) harmlessDefer(name string) bool {
 	return false
 }
 
+func (w *World) jsonAppendString() *ssa.Function {
+	w.mu.Lock()
+	defer w.mu.Unlock()
+	if w.jsonAS != nil {
+		return w.jsonAS
+	}
+	for fn := range ssautil.AllFunctions(w.Prog) {
+		if o := fn.Origin(); o != nil && o.String() == "encoding/json.appendString" && strings.HasSuffix(fn.Name(), "[string]") {
+			w.jsonAS = fn
+			break
+		}
+	}
+	return w.jsonAS
+}
+
 func (w *World) newExt(kind string, v interface{}) *Ext {
 	w.mu.Lock()
 	defer w.mu.Unlock()
@@ -159,7 +175,7 @@ func (w *World) runsInit(path string) bool {
 		return true
 	}
 	switch path {
-	case "golang.org/x/text/unicode/rangetable", "html", "unicode/utf8":
+	case "golang.org/x/text/unicode/rangetable", "html", "unicode/utf8", "encoding/json":
 		return true
 	}
 	return false
